@@ -328,7 +328,6 @@ impl Decoder for DownlinkOperationDecoder {
                 let body = src.split_to(len).freeze();
                 Ok(Some(DownlinkOperation { body }))
             } else {
-                src.reserve(LEN_SIZE.saturating_add(len));
                 Ok(None)
             }
         } else {
